@@ -483,6 +483,9 @@ MStep(prog, m) ==
               \* one print! call with several arguments (rendered print!(e1, "\n", e2, "\n", ...)): the values appear in
               \* argument order, exactly as if each had been printed by its own call
               [] it.k = "PP" -> PrintAll(prog, m1, it.es, 1)
+              \* print!("part1", "part2", ..., "\n"): a call whose arguments are all string literals shows their text, whatever
+              \* characters it holds (a `%` is a `%`); one line of output
+              [] it.k = "T" -> [Next1(m1) EXCEPT !.out = Append(@, [t |-> "text", v |-> it.parts])]
               [] it.k = "CALL" ->
                    LET g == FnIndex(prog, it.f)
                        en == BindArgs(prog, [m1 EXCEPT !.next = @ + 1], prog.fns[g].params, it.args, 1, <<>>, m1.next, {})
